@@ -1,5 +1,5 @@
 CONSTANTS
-  Hi = 6
+  Hi = 5
   MaxKnots = 3
 INIT Init
 NEXT Next
